@@ -1503,10 +1503,21 @@ class Pregex():
 
         :param str pattern: The RegEx pattern that is to be examined.
         '''
-        try:
-            _re.compile(f"(?<={pattern})", flags=__class__.__flags)
-        except _re.error as e:
-            return "fixed-width" not in str(e)
+        # Groups that the pattern refers to but does not define itself are
+        # defined by this context, so that the rest of the pattern is examined.
+        context = ""
+        for _ in range(200):
+            try:
+                _re.compile(f"{context}(?<={pattern})", flags=__class__.__flags)
+            except _re.error as e:
+                if "fixed-width" in str(e):
+                    return False
+                ref = _re.search(r"unknown group name '?(\w+)|invalid group reference (\d+)", str(e))
+                if ref is None:
+                    return True
+                context += f"(?P<{ref.group(1)}>a)" if ref.group(1) else "(a)"
+            else:
+                return True
         return True
 
 
